@@ -296,7 +296,11 @@ func (f *Fam) Exec(op string) (obs string, fails []common.Failure) {
 		na, err := f.open(f.a.mem)
 		if err != nil {
 			f.dead = true
-			fail("crash-atomic", "C13:reopen-failed-after-crash", fmt.Sprintf("crash after %d batch writes of commit %d (keepRecent=%d keepEvery=%d): reopening fails: %v", k, before+1, f.kr, f.ke, err))
+			sig := "C13:reopen-failed-after-crash"
+			if f.kr == 0 && k >= 2 {
+				sig = "C13:reopen-failed-after-crash:keepRecent0" // the recorded class: previous version pruned before the commit info is flushed
+			}
+			fail("crash-atomic", sig, fmt.Sprintf("crash after %d batch writes of commit %d (keepRecent=%d keepEvery=%d): reopening fails: %v", k, before+1, f.kr, f.ke, err))
 			return "crashed reopen-err", fails
 		}
 		f.a = na
